@@ -36,10 +36,17 @@ class FileManager:
                 in_note = False
                 start_idx = i
         end_idx = start_idx + 1
+        before_lines = zlines[:start_idx]
+        if zlines[start_idx].strip() != "":
+            # The page does not end with a newline (e.g. it was just rendered
+            # from a template), so the last line holds text that must be kept.
+            before_lines.append(zlines[start_idx])
+        if all(line.startswith("#") for line in before_lines):
+            # The page has no body yet; a blank line must separate the page
+            # header from the first note.
+            before_lines.append("")
         new_zlines = (
-            zlines[:start_idx]
-            + note.to_string().split("\n")
-            + zlines[end_idx:]
+            before_lines + note.to_string().split("\n") + zlines[end_idx:]
         )
         new_zcontents = "\n".join(new_zlines)
         zpage.write_text(new_zcontents)
